@@ -27,7 +27,7 @@ ASSUMPTIONS = ["arguments of undocumented types (bytes for str parameters, dict 
                "objects from encoded=True routes need not stringify (the caller vouches for the text)",
                "MemoryError/RecursionError raised by the interpreter outside the quoter on huge inputs is inconclusive, not a violation"]
 
-HOSTILE = ["[]", "[v]", "[v1.]", "][", "//:", "//@", ":0", "%", "%%", "%a", "//[", "//]", "//[]", "//[v]", "//[v1.]:", "//[::1]x", "//[::1]:", "//[::1]:x", "//@:", "//:@", "//u@:0", "//:0",
+HOSTILE = [".", "..", "./", "a/..", "../..", "/.", "./.", "[]", "[v]", "[v1.]", "][", "//:", "//@", ":0", "%", "%%", "%a", "//[", "//]", "//[]", "//[v]", "//[v1.]:", "//[::1]x", "//[::1]:", "//[::1]:x", "//@:", "//:@", "//u@:0", "//:0",
            "http://", "http://@", "http://:", "http://:80", "http://[", "http://[]:80", "http://[::1", "http://::1]", "http://[::1]]", "http://[[::1]]", "http://[v1.x]:99999",
            "http://h:", "http://h:x", "http://h:-1", "http://h:99999", "http://h:８０", "http://u:p@", "http://@h", "http://%", "http://h/%", "http://h/%%%", "http://h?%", "http://h#%",
            "http://h:80:80", "//h:0x50", "http://[v1.]/", "http://[V]/", "http://[vg.x]/", "http://[1.2.3.4]/", "http://[fe80::1%]/", "http://[fe80::1%25]/", "http://[::1%zone]/",
@@ -61,10 +61,23 @@ EXTRA = {
     "with_name.rel": lambda Y, t: Y.URL("a/b").with_name(t),
     "with_suffix.raw": lambda Y, t: Y.URL("http://h/a.b").with_suffix(t),
     "joinpath.multi": lambda Y, t: Y.URL("http://h/a").joinpath(t, t),
+    # keyword combinations of build(): text in one keyword while another one is set
+    "build.host+path": lambda Y, t: Y.URL.build(scheme="http", host="h", path=t),
+    "build.authority+path": lambda Y, t: Y.URL.build(scheme="http", authority="u@h:81", path=t),
+    "build.path-only": lambda Y, t: Y.URL.build(path=t, query_string=t, fragment=t),
+    "build.scheme+path": lambda Y, t: Y.URL.build(scheme="mailto", path=t),
+    "build.host+port": lambda Y, t: Y.URL.build(scheme="http", host=t, port=0, user=t),
+    "build.all": lambda Y, t: Y.URL.build(scheme="http", user=t, password=t, host="h", port=81, path="/" + t, query={t: [t, 1, 1.5]}, fragment=t),
+    "with_path.noslash": lambda Y, t: Y.URL("http://h/x").with_path(t, keep_query=True, keep_fragment=True),
+    "with_path.rel.noslash": lambda Y, t: Y.URL("x/y").with_path(t),
+    "div.empty-base": lambda Y, t: Y.URL("http://h") / t,
+    "div.rel-base": lambda Y, t: Y.URL("") / t,
+    "join.rel-base": lambda Y, t: Y.URL(t).join(Y.URL(t)),
 }
 ALL_ENTRIES = entry.NAMES + sorted(EXTRA)
 AUTO_STRINGIFY = {e.name for e in entry.E if e.kind in ("quote", "qstring", "other", "host") or e.name.startswith("join")} | \
-    {"build.authority", "build.scheme", "with_scheme", "without_query_params", "with_name.rel", "with_suffix.raw", "joinpath.multi"}
+    {"build.authority", "build.scheme", "with_scheme", "without_query_params", "with_name.rel", "with_suffix.raw", "joinpath.multi", "build.host+path", "build.authority+path",
+     "build.path-only", "build.scheme+path", "build.host+port", "build.all", "with_path.noslash", "with_path.rel.noslash", "div.empty-base", "div.rel-base"}
 
 
 def _frame(tb, Y):
@@ -209,6 +222,12 @@ def replay_fault(ctx, image, sizes, windows):
 CHECKS["faults"] = replay_fault
 
 
+def fuzz_campaign(ctx, runs):
+    """coverage-guided tier (atheris/libFuzzer): oracle inside the target, empty and seeded corpus; a failure is re-run through the ordinary case checker"""
+    from .. import fuzz
+    fuzz.campaign(ctx, "calls", runs, ctx.seed, "calls", "fuzz/calls")
+
+
 def shards(tier, seed):
     n = 1500 if tier == "quick" else 40000
     parts = 6 if tier == "quick" else 7
@@ -219,6 +238,7 @@ def shards(tier, seed):
         for p in range(parts):
             out.append({"name": "gen-%s-%d" % (b, p), "fn": "generated", "kw": {"backend": b, "n": n, "part": p, "nparts": parts}})
     sizes = [9000, 27000] if tier == "quick" else [3000, 9000, 18000, 27000, 36000, 45000]
+    out.append({"name": "fuzz", "fn": "fuzz_campaign", "kw": {"runs": 20000 if tier == "quick" else 1500000}})
     out.append({"name": "faults-normal", "fn": "faults", "kw": {"asan": False, "sizes": sizes, "windows": [1, 3]}})
     out.append({"name": "faults-asan", "fn": "faults", "kw": {"asan": True, "sizes": sizes, "windows": [1, 3]}})
     return out
